@@ -273,7 +273,7 @@ def _with_helpers_inlined(f):
     return dataclasses.replace(f, node=inline_private_helpers(f, methods=True))
 
 
-def rule_algebra(rep, program: Program):
+def rule_algebra(rep, program: Program, relevant=None):
     r1 = rep.rule("R1", "left product, right product, dense array and transpose of each class denote one operator", floor=91)
     r4 = rep.rule("R4", "inverse, square root and scalar multiple satisfy M^-1 M = I, S S^T = M, (c M) = c * M", floor=53)
     r5 = rep.rule("R5", "forwarded capacitance caches equal their definition on the new arguments; lower/upper flags follow transposition", floor=20)
@@ -353,7 +353,7 @@ def rule_algebra(rep, program: Program):
                             _check_caches(r5, alg, ev, f, v, cname, "scalar_multiply")
                     except AnalysisError as e:
                         skipped.append(f"{cname}.{member}: {str(e)[:70]}")
-    unexpected = [x for x in skipped if x.split(":")[0] not in ALLOWED_OUTSIDE]
+    unexpected = [x for x in skipped if x.split(":")[0] not in ALLOWED_OUTSIDE and (relevant is None or relevant(*x.split(":")[0].split(".", 1)))]
     if unexpected:
         rep.extra["members_outside_algebra"] = skipped
         raise AnalysisError("matrix members could not be evaluated in the operator algebra (idiom not recognised): " + "; ".join(unexpected[:4]))
